@@ -104,19 +104,6 @@ mod h {
     #[kani::proof] #[kani::unwind(7)] fn time_aware_lookup_between_3() { lookup::<3>(true) }
 
 
-    /// the constructor establishes the state the look-ups rely on, whatever order the matrices are supplied in:
-    /// 2 matrices of one profile, arbitrary distinct timestamps; a query AT each timestamp returns that matrix
-    #[kani::proof] #[kani::unwind(3)]
-    fn constructor_orders_matrices_by_time_2() {
-        let (t0, t1): (u8, u8) = (kani::any(), kani::any());
-        kani::assume(t0 < 4 && t1 < 4 && t0 != t1);
-        let costs = vec![MatrixData { index: 0, timestamp: Some(t0 as Float), durations: vec![10.], distances: vec![1.] },
-                         MatrixData { index: 0, timestamp: Some(t1 as Float), durations: vec![20.], distances: vec![2.] }];
-        let Ok(c) = TimeAwareMatrixTransportCost::new(costs, 1, Fb) else { panic!("post_consistent_matrix_set_is_accepted") };
-        let p = Profile { index: 0, scale: 1. };
-        assert!(c.interpolate_duration(&p, 0, 0, TravelTime::Departure(t0 as Float)) == 10., "post_value_at_first_supplied_timestamp");
-        assert!(c.interpolate_duration(&p, 0, 0, TravelTime::Departure(t1 as Float)) == 20., "post_value_at_second_supplied_timestamp");
-        assert!(c.interpolate_distance(&p, 0, 0, TravelTime::Departure(t1 as Float)) == 2., "post_distance_at_second_supplied_timestamp");
-        kani::cover!(t1 < t0);
-    }
+    // (a harness through TimeAwareMatrixTransportCost::new - 2 matrices, timestamps 0..3 - did not finish in CBMC within 3000 s / 24 GB
+    //  and is not registered: the constructor's grouping and sorting is NOT under contract)
 }
